@@ -392,16 +392,22 @@ theorem client_ip_is_empty_or_printed (N : Net Addr Prefix) (cfg : Cfg Prefix) (
     | some ip => right; exact ⟨ip, by rw [h, hp]; rfl⟩
   · exact Or.inr ⟨a, h⟩
 
-/-- **every consumer reads the attributed address.** The `{http.vars.client_ip}` placeholder and the
-    access log's `client_ip` field are the var; the PROXY-protocol address sent to the upstream is the
+/-- **every consumer reads the attributed address.** The `{http.vars.client_ip}` placeholder, templates'
+    `{{.ClientIP}}` and the access log's `client_ip` field are the var; the PROXY-protocol address sent to the upstream is the
     var's address (invalid exactly when the var is empty). -/
 theorem consumers_read_the_attributed_address (N : Net Addr Prefix) (hN : PrintsParseBack N)
     (cfg : Cfg Prefix) (ranges : List (MRange Prefix)) (c : Conn) (w : List (Bytes × Bytes)) :
     (serveConsumers N cfg ranges c w).placeholder = (serve N cfg c w).clientIP ∧
+    (serveConsumers N cfg ranges c w).template = (serve N cfg c w).clientIP ∧
     (serveConsumers N cfg ranges c w).logField = (serve N cfg c w).clientIP ∧
     (serveConsumers N cfg ranges c w).proxyProto =
       (if (serve N cfg c w).clientIP = [] then none else some (serve N cfg c w).clientIP) := by
-  refine ⟨rfl, rfl, ?_⟩
+  refine ⟨rfl, ?_, rfl, ?_⟩
+  · unfold serveConsumers consumers hostOrAll
+    simp only
+    rcases client_ip_is_empty_or_printed N cfg c w with h | ⟨a, h⟩
+    · rw [h]; decide
+    · rw [h, hN.noPort a]
   unfold serveConsumers consumers
   simp only
   rcases client_ip_is_empty_or_printed N cfg c w with h | ⟨a, h⟩
@@ -875,9 +881,9 @@ example : serveAttempts toyNet witCfg witConn [] .none 1 =
 -- a zoned range only matches the zoned socket address, never the (zone-less) attributed address
 def exRanges : List (MRange Bytes) := [⟨b!"10.", []⟩, ⟨b!"fe80", b!"eth0"⟩]
 example : serveConsumers toyNet exCfg exRanges exUntrusted exHeaders =
-    ⟨b!"fe80::1", b!"fe80::1", false, true, some b!"fe80::1"⟩ := by decide
+    ⟨b!"fe80::1", b!"fe80::1", b!"fe80::1", false, true, some b!"fe80::1"⟩ := by decide
 example : serveConsumers toyNet exCfg exRanges exTrusted exHeaders =
-    ⟨b!"9.9.9.9", b!"9.9.9.9", false, true, some b!"9.9.9.9"⟩ := by decide
+    ⟨b!"9.9.9.9", b!"9.9.9.9", b!"9.9.9.9", false, true, some b!"9.9.9.9"⟩ := by decide
 example : splitHostPort (toyNet.toString b!"fe80::1") = none ∧ cutZone (toyNet.toString b!"10.0.0.1") = b!"10.0.0.1" ∧
     toyNet.parseAddr (toyNet.toString b!"::1") = some b!"::1" ∧ toyNet.parseAddr [] = none := by decide
 example : matchCidrZones toyNet b!"fe80::1" b!"eth0" exRanges = true ∧
